@@ -901,6 +901,29 @@ def uf_app_n(name, args, consts=(), rf=TOP, axioms=None, shadow=None):
     return Sym(res, s=rsh, f=rf)
 
 
+_rel_cache = {}
+
+
+def _derived_vars(a):
+    k = a.get_id()
+    hit = _rel_cache.get(k)
+    if hit is not None and hit[0].eq(a):
+        return hit[1]
+    vs = frozenset(v for v in Engine.vars_of(a, set()) if '!' in v)
+    _rel_cache[k] = (a, vs)
+    return vs
+
+
+def related(a, a2):
+    """relevance filter for the pairwise T1 axioms: two arguments can only be ordered against each
+    other if they share a derived quantity (e.g. the same sqrt denominator) or one has none.
+    Leaving axioms out only weakens the assumptions, so `unsat` verdicts stay valid."""
+    if not ENG.opts.get('t1_filter', True):
+        return True
+    va, vb = _derived_vars(a), _derived_vars(a2)
+    return (not va) or (not vb) or bool(va & vb)
+
+
 def ax_sqrt(a, r, lst):
     ENG.add_axiom(r >= 0, 0)
     ENG.add_axiom(r * r == a, 0)
@@ -913,6 +936,8 @@ def ax_exp(a, r, lst):
     A(z3.Implies(a > 0, r > 1))
     A(z3.Implies(a == 0, r == 1))
     for (a2, r2) in lst:
+        if not related(a, a2):
+            continue
         A(z3.Implies(a < a2, r < r2))
         A(z3.Implies(a > a2, r > r2))
         A(z3.Implies(a == a2, r == r2))
@@ -926,6 +951,8 @@ def ax_cdf(a, r, lst):
     A(z3.Implies(a > 0, 2 * r > 1))
     A(z3.Implies(a < 0, 2 * r < 1))
     for (a2, r2) in lst:
+        if not related(a, a2):
+            continue
         A(z3.Implies(a < a2, r < r2))
         A(z3.Implies(a > a2, r > r2))
         A(z3.Implies(a == a2, r == r2))
